@@ -89,7 +89,7 @@ bitvResize(BitvClass newc, BitvClass oldc, Bitv b)
 
 	new = bitvNew(newc);
 	for (i = 0; i < oldc->nwords; i++)
-		new[i] = *b++;
+		new[i] = b[i];
 	
 	bitvFree(b);
 
